@@ -105,9 +105,7 @@ func IterateImportedDecls(imprt *ImportStmt, fun func(name string, decl Declarat
 
 			// sort by occurence in the source file
 			sort.Slice(decls, func(i, j int) bool {
-				start := decls[i].GetRange().Start
-				startj := decls[j].GetRange().Start
-				return start.Line < startj.Line || start.Column < startj.Column
+				return decls[i].GetRange().Start.IsBefore(decls[j].GetRange().Start)
 			})
 
 			for _, decl := range decls {
